@@ -595,32 +595,58 @@ pub fn run(env: &Env, replay: Option<&Path>) -> i32 {
         }
         return finish(env, report, &META);
     }
-    replay_corpus(env, &subs, &mut report);
-    // all 256 bit positions of some seeds (complete over the bit index)
-    let (s512, s1024_bits) = env.tier.pick((1usize, 12usize), (4, 256));
-    let seeds512 = api::seed_list(env.seed, 0xC15, s512);
-    let seeds1024 = api::seed_list(env.seed, 0xC15_1024, 2);
-    let mut flips: Vec<FlipCase> = vec![];
-    for s in &seeds512 {
-        for bit in 0..256 {
-            flips.push(FlipCase { n: 512, seed: seed_hex(s), bit });
-        }
-    }
-    for (j, s) in seeds1024.iter().enumerate() {
-        for t in 0..s1024_bits {
-            let bit = if s1024_bits == 256 { t } else { (mix(env.seed ^ (j as u64 * 1000 + t as u64)) % 256) as usize };
-            flips.push(FlipCase { n: 1024, seed: seed_hex(s), bit });
-        }
-    }
-    // interleave so that the expensive 1024 cases are spread over the workers
-    flips.sort_by_key(|f| mix(f.bit as u64 * 7 + f.n as u64));
-    drive_enumerated(env, &BitFlip, flips.into_iter(), &mut report);
-    drive(env, &History, env.tier.pick(12, 128), &mut report);
-    drive(env, &Repeat, env.tier.pick(8, 400), &mut report);
-    drive(env, &ProcessHistory, env.tier.pick(6, 200), &mut report);
-    drive(env, &RelatedSeeds, env.tier.pick(18, 400), &mut report);
-    drive(env, &Environment, env.tier.pick(6, 200), &mut report);
-    drive(env, &ApiHistory, env.tier.pick(48, 1_000), &mut report);
+    // Three groups of sub-checks run side by side (each phase ends with a few slow Falcon-1024
+    // generations that would otherwise leave most workers idle); their reports are merged.
+    let (ra, rb, rc) = std::thread::scope(|sc| {
+        let a = sc.spawn(|| {
+            let mut report = Report::new();
+            replay_corpus(env, &subs, &mut report);
+            drive(env, &ApiHistory, env.tier.pick(48, 1_000), &mut report);
+            report
+        });
+        let b = sc.spawn(|| {
+            let mut report = Report::new();
+            // all 256 bit positions of some seeds (complete over the bit index)
+            let (s512, s1024_bits) = env.tier.pick((1usize, 12usize), (4, 256));
+            let seeds512 = api::seed_list(env.seed, 0xC15, s512);
+            let seeds1024 = api::seed_list(env.seed, 0xC15_1024, 2);
+            let mut flips: Vec<FlipCase> = vec![];
+            for s in &seeds512 {
+                for bit in 0..256 {
+                    flips.push(FlipCase { n: 512, seed: seed_hex(s), bit });
+                }
+            }
+            for (j, s) in seeds1024.iter().enumerate() {
+                for t in 0..s1024_bits {
+                    let bit = if s1024_bits == 256 { t } else { (mix(env.seed ^ (j as u64 * 1000 + t as u64)) % 256) as usize };
+                    flips.push(FlipCase { n: 1024, seed: seed_hex(s), bit });
+                }
+            }
+            // interleave so that the expensive 1024 cases are spread over the workers
+            flips.sort_by_key(|f| mix(f.bit as u64 * 7 + f.n as u64));
+            drive_enumerated(env, &BitFlip, flips.into_iter(), &mut report);
+            drive(env, &History, env.tier.pick(12, 128), &mut report);
+            drive(env, &RelatedSeeds, env.tier.pick(18, 400), &mut report);
+            report
+        });
+        let c = sc.spawn(|| {
+            let mut report = Report::new();
+            drive(env, &Repeat, env.tier.pick(8, 400), &mut report);
+            // seeds whose candidate polynomials draw the most / the least randomness under the current code
+            let (scan512, scan1024, keep) = env.tier.pick((3000usize, 600usize, 4usize), (60_000, 10_000, 16));
+            let mut greedy = greedy_seeds(env, 512, scan512, keep);
+            greedy.extend(greedy_seeds(env, 1024, scan1024, keep / 2));
+            report.extra.insert("greedy_prescreen".into(), json!({"seeds_scanned_512": scan512, "seeds_scanned_1024": scan1024, "kept": greedy.len()}));
+            drive_enumerated(env, &Repeat, greedy.into_iter(), &mut report);
+            drive(env, &ProcessHistory, env.tier.pick(6, 200), &mut report);
+            drive(env, &Environment, env.tier.pick(6, 200), &mut report);
+            report
+        });
+        (a.join().expect("group a"), b.join().expect("group b"), c.join().expect("group c"))
+    });
+    report.merge(ra);
+    report.merge(rb);
+    report.merge(rc);
     let covered: Vec<usize> = (0..256).filter(|b| report.stats.counters.contains_key(&format!("bit_position_covered_{:03}", b))).collect();
     report.extra.insert("seed_bit_positions_covered".into(), json!(covered.len()));
     report.stats.counters.retain(|k, _| !k.starts_with("bit_position_covered_"));
@@ -694,6 +720,160 @@ pub fn hunt_d7(n: usize, first: u64, count: u64) {
                         }
                     }
                 }
+            });
+        }
+    });
+}
+
+/// Largest and smallest number of random bytes one candidate polynomial of the key generator
+/// draws for this seed (candidates up to the first acceptable one), replayed through the hook with
+/// a counting generator under the CURRENT code. Only selects inputs.
+pub fn randomness_per_polynomial(n: usize, seed: [u8; 32]) -> (u64, u64, u32) {
+    use falcon_rust::verif_hooks::keygen_parts as kp;
+    use rand::{RngCore, SeedableRng};
+    struct Counting {
+        inner: rand::rngs::StdRng,
+        bytes: u64,
+    }
+    impl RngCore for Counting {
+        fn next_u32(&mut self) -> u32 {
+            self.bytes += 4;
+            self.inner.next_u32()
+        }
+        fn next_u64(&mut self) -> u64 {
+            self.bytes += 8;
+            self.inner.next_u64()
+        }
+        fn fill_bytes(&mut self, d: &mut [u8]) {
+            self.bytes += d.len() as u64;
+            self.inner.fill_bytes(d)
+        }
+        fn try_fill_bytes(&mut self, d: &mut [u8]) -> Result<(), rand::Error> {
+            self.fill_bytes(d);
+            Ok(())
+        }
+    }
+    let lim = (1i64 << (refimpl::params::params(n).fg_bits - 1)) - 1;
+    let mut rng = Counting { inner: rand::rngs::StdRng::from_seed(seed), bytes: 0 };
+    let (mut most, mut least, mut polys) = (0u64, u64::MAX, 0u32);
+    for _ in 0..200 {
+        let b0 = rng.bytes;
+        let f = kp::gen_poly(n, &mut rng);
+        let b1 = rng.bytes;
+        let g = kp::gen_poly(n, &mut rng);
+        let b2 = rng.bytes;
+        for d in [b1 - b0, b2 - b1] {
+            most = most.max(d);
+            least = least.min(d);
+            polys += 1;
+        }
+        if f.iter().chain(g.iter()).any(|x| (*x as i64).abs() > lim) {
+            continue;
+        }
+        if refimpl::zq::evaluate_at_roots(&crate::util::to_i64(&f)).iter().any(|&x| x == 0) {
+            continue;
+        }
+        if kp::gram_schmidt_norm_squared(&f, &g) <= 1.3689 * 12289.0 {
+            break;
+        }
+    }
+    (most, least, polys)
+}
+
+/// The `keep` seeds with the largest and the `keep / 2` with the smallest per-polynomial
+/// randomness consumption among `count` seeds derived from VERIF_SEED (each seed scanned on a thread of its own).
+fn greedy_seeds(env: &Env, n: usize, count: usize, keep: usize) -> Vec<RepeatCase> {
+    let seeds = api::seed_list(env.seed, 0x6EED ^ n as u64, count);
+    let next = std::sync::atomic::AtomicUsize::new(0);
+    let rows = std::sync::Mutex::new(Vec::with_capacity(count));
+    std::thread::scope(|sc| {
+        for _ in 0..env.workers.max(1) {
+            sc.spawn(|| loop {
+                let i = next.fetch_add(1, std::sync::atomic::Ordering::Relaxed);
+                if i >= seeds.len() {
+                    break;
+                }
+                // every seed on a thread of its own: whatever the code under test keeps per thread
+                // must not colour the measurement of the next seed
+                let seed = seeds[i];
+                let r = std::thread::scope(|one| one.spawn(move || no_panic(|| randomness_per_polynomial(n, seed))).join());
+                if let Ok(Ok((most, least, polys))) = r {
+                    rows.lock().unwrap().push((most, least, polys, seed));
+                }
+            });
+        }
+    });
+    let mut rows = rows.into_inner().unwrap();
+    rows.sort();
+    let mut out: Vec<RepeatCase> = rows.iter().rev().take(keep).map(|r| RepeatCase { n, seed: seed_hex(&r.3), rejected_candidates: r.2 / 2 }).collect();
+    rows.sort_by_key(|r| r.1);
+    out.extend(rows.iter().take(keep / 2).map(|r| RepeatCase { n, seed: seed_hex(&r.3), rejected_candidates: r.2 / 2 }));
+    out
+}
+
+/// `fvh hunt-greedy <n> <first> <count>`: for each seed, the largest and smallest number of random
+/// bytes one candidate polynomial of the key generator draws (replayed through the hook with a
+/// counting generator, candidates up to the first acceptable one). Seeds in the far tails go to the
+/// corpus: buffers, pools and budgets sized for the typical polynomial meet their limit there.
+pub fn hunt_greedy(n: usize, first: u64, count: u64) {
+    use falcon_rust::verif_hooks::keygen_parts as kp;
+    use rand::{RngCore, SeedableRng};
+    struct Counting {
+        inner: rand::rngs::StdRng,
+        bytes: u64,
+    }
+    impl RngCore for Counting {
+        fn next_u32(&mut self) -> u32 {
+            self.bytes += 4;
+            self.inner.next_u32()
+        }
+        fn next_u64(&mut self) -> u64 {
+            self.bytes += 8;
+            self.inner.next_u64()
+        }
+        fn fill_bytes(&mut self, d: &mut [u8]) {
+            self.bytes += d.len() as u64;
+            self.inner.fill_bytes(d)
+        }
+        fn try_fill_bytes(&mut self, d: &mut [u8]) -> Result<(), rand::Error> {
+            self.fill_bytes(d);
+            Ok(())
+        }
+    }
+    let lim = (1i64 << (refimpl::params::params(n).fg_bits - 1)) - 1;
+    let next = std::sync::atomic::AtomicU64::new(0);
+    std::thread::scope(|sc| {
+        for _ in 0..16 {
+            sc.spawn(|| loop {
+                let i = next.fetch_add(1, std::sync::atomic::Ordering::Relaxed);
+                if i >= count {
+                    break;
+                }
+                let seed = crate::util::seed32(0x6EED_0000_0000 + first + i);
+                let mut rng = Counting { inner: rand::rngs::StdRng::from_seed(seed), bytes: 0 };
+                let (mut most, mut least, mut polys) = (0u64, u64::MAX, 0u32);
+                for _ in 0..200 {
+                    let b0 = rng.bytes;
+                    let f = kp::gen_poly(n, &mut rng);
+                    let b1 = rng.bytes;
+                    let g = kp::gen_poly(n, &mut rng);
+                    let b2 = rng.bytes;
+                    for d in [b1 - b0, b2 - b1] {
+                        most = most.max(d);
+                        least = least.min(d);
+                        polys += 1;
+                    }
+                    if f.iter().chain(g.iter()).any(|x| (*x as i64).abs() > lim) {
+                        continue;
+                    }
+                    if refimpl::zq::evaluate_at_roots(&crate::util::to_i64(&f)).iter().any(|&x| x == 0) {
+                        continue;
+                    }
+                    if kp::gram_schmidt_norm_squared(&f, &g) <= 1.3689 * 12289.0 {
+                        break;
+                    }
+                }
+                println!("{} {} most={} least={} polys={}", n, hex(&seed), most, least, polys);
             });
         }
     });
